@@ -15,7 +15,7 @@
      content=bytes -> raw content without a Content-Type of its own (the generator adds the header);
      cookies=dict -> Cookie header, values must be str;
      urllib.parse.quote(v, safe="") / the server's unquote: a quoted value is ONE path segment.
-   The open defects are kept (F04c, F04d, F04f, F04i, F04j, F04k); F04a, F04b, F04e, F04g, F04h are fixed in the code
+   The open defects are kept (F04c, F04d, F04j, F04k); F04a, F04b, F04e, F04f, F04g, F04h, F04i are fixed in the code
    and the model transcribes the fixed code.  No proofs in this file. *)
 From PG Require Import Lib.Strs.
 From PG Require Export Gen.T_C04.
@@ -108,6 +108,19 @@ Definition fmt_py (p : pyval) : option str :=
   | _ => None
   end.
 
+(* core/utils.py serialize_simple on a serialised value (OpenAPI `simple` style): booleans -> true/false,
+   lists comma-joined, everything else str() *)
+Definition comma : str := [44].
+Definition simple_scalar (s : scalar) : str :=
+  match s with VBool b => if b then s_true else s_false | _ => fmt_scalar s end.
+Definition simple_py (p : pyval) : option str :=
+  match p with
+  | PNone => Some s_None
+  | PV (Sc s) => Some (simple_scalar s)
+  | PV (Arr l) => Some (join comma (map simple_scalar l))
+  | PB _ => None
+  end.
+
 (* httpx primitive_value_to_str *)
 Definition q_scalar (s : scalar) : str :=
   match s with
@@ -122,13 +135,8 @@ Definition q_py (p : pyval) : list str :=
   | PB _ => []
   end.
 
-(* httpx header value: str instances only (a str-Enum member is sent as its raw str value) *)
-Definition h_py (p : pyval) : option str :=
-  match p with
-  | PV (Sc (VStr s)) => Some s
-  | PV (Sc (VEnum true v _)) => Some v
-  | _ => None
-  end.
+(* header / cookie value: headers = {name: serialize_simple(value) ...} makes every value a str *)
+Definition h_py (p : pyval) : option str := simple_py p.
 
 (* json.dumps(separators=(",",":")) of a parameter value that ended up as the JSON body (F04d);
    exact for strings without characters that need escaping *)
@@ -263,6 +271,23 @@ Definition not_dot (c : str) : bool := negb (str_eqb c s_dot || str_eqb c s_dotd
 
 Definition env := list (str * pyval).
 Definition env_get (e : env) (x : str) : pyval := match alookup x e with Some v => v | None => PNone end.
+
+(* core/loader/operations/parser.py: the operation's parameter list = the path-level parameters, then each
+   operation-level parameter REPLACES, in place, the first parameter already in the list with the same
+   (name, in), or is appended *)
+Definition same_key (p q : param) : bool := loc_eqb (p_loc p) (p_loc q) && str_eqb (p_name p) (p_name q).
+Fixpoint replace_first (p : param) (l : list param) : option (list param) :=
+  match l with
+  | [] => None
+  | q :: r => if same_key p q then Some (p :: r)
+              else match replace_first p r with Some r' => Some (q :: r') | None => None end
+  end.
+Definition add_param (l : list param) (p : param) : list param :=
+  match replace_first p l with Some l' => l' | None => l ++ [p] end.
+Definition merge_params (path_level op_level : list param) : list param := fold_left add_param op_level path_level.
+Definition with_params (o : op) (ps : list param) : op :=
+  {| o_method := o_method o; o_path := o_path o; o_params := ps; o_body := o_body o;
+     o_body_required := o_body_required o |}.
 
 (* a finite table for sanitize_method_name (identity outside the table) *)
 Definition mn_of (tbl : list (str * str)) (s : str) : str :=
@@ -436,7 +461,7 @@ Section Wire.
     existsb (fun k => match k with (Cookie, _, _) => true | _ => false end) (a_params a).
 
   (* the f-string, as pieces: a literal contributes its characters ('/' separates segments); a variable
-     that went through quote(…, safe="") contributes ONE atom; a variable interpolated raw (dispatch
+     that went through quote(serialize_simple(…), safe="") contributes ONE atom; a variable interpolated raw (dispatch
      implementation) contributes its characters like a literal *)
   Definition eval_url (path_ser : list str) (e : env) (u : list useg) : option (list tok) :=
     option_map (@concat tok)
@@ -446,7 +471,7 @@ Section Wire.
                                           | None => None                         (* NameError *)
                                           | Some pv =>
                                               if mem_str x path_ser
-                                              then option_map (fun w => [TAtom w]) (fmt_py (ser_py pv))
+                                              then option_map (fun w => [TAtom w]) (simple_py (ser_py pv))
                                               else option_map toks_of_lit (fmt_py pv)
                                           end
                               end) u)).
@@ -534,34 +559,34 @@ Section Wire.
     end.
   Definition wires (v : value) : list str :=
     match v with Sc s => [wire s] | Arr l => map wire l end.
+  (* OpenAPI `simple` style (path and header parameters; taken for cookies as well): an array is one
+     comma-separated value *)
+  Definition wire_simple (v : value) : str :=
+    match v with Sc s => wire s | Arr l => join comma (map wire l) end.
 
   Definition declared (o : op) (l : loc) (n : str) : bool :=
     existsb (fun p => loc_eqb (p_loc p) l && str_eqb (p_name p) n) (o_params o).
 
   (* the values that must appear under name n at location l: those of the supplied argument; nothing
      for an argument left as None; nothing for a name that is not a parameter *)
+  Definition wire_at (l : loc) (v : value) : list str :=
+    match l with
+    | Query => wires v                (* style=form, explode=true: one pair per item *)
+    | _ => [wire_simple v]            (* style=simple: one comma-joined value *)
+    end.
   Definition expected (o : op) (a : args) (l : loc) (n : str) : list str :=
-    if declared o l n then match arg_of (a_params a) l n with Some v => wires v | None => [] end else [].
+    if declared o l n then match arg_of (a_params a) l n with Some v => wire_at l v | None => [] end else [].
 
   Definition values_at (n : str) (d : list (str * str)) : list str :=
     map snd (filter (fun kv => str_eqb (fst kv) n) d).
-
-  Definition spec_path (o : op) (a : args) : option str :=
-    opt_concat (map (fun s => match s with
-                              | Lit t => Some t
-                              | Var v => match arg_of (a_params a) Path v with
-                                         | Some (Sc s) => Some (wire s)
-                                         | _ => None
-                                         end
-                              end) (o_path o)).
 
   Definition spec_toks (o : op) (a : args) : option (list tok) :=
     option_map (@concat tok)
       (opt_all (map (fun s => match s with
                               | Lit t => Some (toks_of_lit t)
                               | Var v => match arg_of (a_params a) Path v with
-                                         | Some (Sc s) => Some [TAtom (wire s)]
-                                         | _ => None
+                                         | Some v => Some [TAtom (wire_simple v)]
+                                         | None => None
                                          end
                               end) (o_path o))).
   Definition spec_segments (o : op) (a : args) : option (list str) :=
@@ -610,13 +635,13 @@ Section Wire.
     end.
 
   (* the operation is a valid OpenAPI operation as far as this property is concerned: the path
-     variables are exactly the declared path parameters, which are required scalars; the python names
+     variables are exactly the declared path parameters, which are required; the python names
      are stable under a second sanitisation (the signature generator sanitises twice, the URL once) and
      the body-variable literals are their own sanitisation *)
   Definition wf_op (o : op) : bool :=
     forallb (fun v => declared o Path v) (path_vars (o_path o))
     && forallb (fun p => match p_loc p with
-                         | Path => mem_str (p_name p) (path_vars (o_path o)) && p_required p && negb (p_array p)
+                         | Path => mem_str (p_name p) (path_vars (o_path o)) && p_required p
                          | _ => true
                          end) (o_params o)
     && forallb (fun p => str_eqb (mn (mn (p_name p))) (mn (p_name p))) (o_params o)
@@ -661,26 +686,6 @@ Section Wire.
        | Some ct => negb (mem_str (body_var_std ct) (map (fun p => mn (p_name p)) (o_params o)))
        end.
 
-  (* F04f: a header or cookie argument that is not a str after serialisation (integer, boolean,
-     int-Enum, array) makes httpx raise TypeError *)
-  Definition str_like (v : value) : bool :=
-    match ser_value v with
-    | Sc (VStr _) => true
-    | _ => false
-    end.
-  Definition guard_F04f (o : op) (a : args) : bool :=
-    forallb (fun k => match k with
-                      | (Header, _, v) | (Cookie, _, v) => str_like v
-                      | _ => true
-                      end) (a_params a).
-
-  (* F04i (the rest of F04e): a boolean path value is rendered by str(): "True"/"False" *)
-  Definition guard_F04i (o : op) (a : args) : bool :=
-    forallb (fun k => match k with
-                      | (Path, _, Sc (VBool _)) => false
-                      | _ => true
-                      end) (a_params a).
-
   (* F04k: an intended path segment is "." or ".." (a path VALUE equal to "." or ".." is not escaped by
      quote(); httpx then treats it as a dot segment: /f/g/.. is sent as /f).  The degenerate empty path
      template is excluded as well *)
@@ -691,6 +696,6 @@ Section Wire.
     end.
 
   Definition guards (o : op) (a : args) : list bool :=
-    [guard_F04j o a; guard_F04c o a; guard_F04d o a; guard_F04f o a; guard_F04i o a; guard_F04k o a].
+    [guard_F04j o a; guard_F04c o a; guard_F04d o a; guard_F04k o a].
   Definition guard (o : op) (a : args) : bool := forallb (fun b => b) (guards o a).
 End Wire.
